@@ -108,6 +108,8 @@ mutual
       | some ([src, each], r') => some (.splat src each, r')
       | _ => none
     | 'W' :: '(' :: r => (parseList r).map fun (es, r') => (E.tmplS es, r')
+    | 'H' :: '0' :: '(' :: r => (parseList r).map fun (es, r') => (E.heredoc false es, r')
+    | 'H' :: '1' :: '(' :: r => (parseList r).map fun (es, r') => (E.heredoc true es, r')
     | 'J' :: '(' :: r => match parseE r with
       | some (e, ')' :: r') => some (.join e, r')
       | _ => none
@@ -205,6 +207,7 @@ partial def showE : E → String
     | [p] => "W(" ++ showE p ++ ")"
     | ps' => "P(" ++ ",".intercalate (ps'.map showE) ++ ")"
   | .strip _ _ e => showE e
+  | .heredoc fl ps => showE (.tmplS (heredocParts fl ps))
   | .tmpl ps =>
     -- as the parser builds it: markers applied, a template of one literal is that literal
     match normTmpl none ps with
